@@ -4,6 +4,7 @@ import Driver.MachineIO
 import Driver.ThreadsIO
 import Driver.GLoopIO
 import Driver.ObjectsIO
+import Driver.GMachineIO
 
 open Lean Driver
 
@@ -17,7 +18,8 @@ def handle (line : String) : String :=
       let r := match pureOp op j with
         | some r => some r
         | none => if op = "machine" then some (opMachine j) else if op = "threads" then some (opThreads j) else if op = "gflat" then some (opGFlat j)
-          else if op = "tm" then some (opTM j) else if op = "sstack" then some (opSStack j) else none
+          else if op = "tm" then some (opTM j) else if op = "sstack" then some (opSStack j) else if op = "heapq" then some (opHeapq j)
+          else if op = "gmachine" then some (opGMachine j) else none
       match r with
       | some (.ok r) => r.compress
       | some (.error e) => (Json.mkObj [("fatal", e)]).compress
